@@ -40,6 +40,8 @@ func c04Healthy(r *rng, id string) {
 		c.indirect = []int{0, 0, 1}[r.intn(3)]
 		c.tcpPings = r.chance(1, 4)
 	}
+	// a node-aware transport that routes by the name in the address (acks, relays and fallback pings must name their addressee)
+	c.routeByName = r.chance(1, 3)
 	cl, err := newSimCluster(r, n, c)
 	if err != nil {
 		emit("C04 sim id=%s err=create", id)
